@@ -29,7 +29,7 @@ def bounds(tier, seed):
 
 
 def replay(case):
-    if case.get("kind") == "window":
+    if case.get("kind") in ("window", "window-long"):
         case = dict(case, which="C05")
         return W.only(PREFIX, _replay(case))
     return _replay(case)
@@ -140,5 +140,28 @@ def harnesses(tier, seed):
             for c in (0.0, 1.0, -2.5, 1e6):
                 judge(ctx, check_constant, {"x": list(g), "c": c, "n": n, "strategy": st, "p": RC.pkey(p)}, bulk=True)
 
-    return [{"name": "window-invariants", "body": body}, {"name": "window-invariants-6pt", "body": body6},
+    lsizes = W.long_sizes(quick)
+
+    def long_body(ctx):
+        st = ctx.choose(RC.WINDOW, "strategy")
+        gk = ctx.choose(["uniform", "gaps", "late-gap"], "grid")
+        n = ctx.choose([2, 5, 12] if quick else [2, 5, 12, 33], "n")
+        yp = ctx.choose(["saw", "steps"], "y")
+        ps = RC.param_sets(st, n, alphas=[F(1, 2), F(1)], betas=[F(1, 2)], exps=[2], smooths=[1], explicit_a=False)
+        for m in lsizes:
+            if m * n > (6000 if quick else 60000):
+                continue
+            for p in ps:
+                case = {"kind": "window-long", "which": "C05", "len": m, "grid": gk, "ypattern": yp, "strategy": st, "n": n, "p": RC.pkey(p)}
+                fails, sig = W.check_window_long(case)
+                ctx.call(1)
+                ctx.bulk(1)
+                for f in W.only(PREFIX, fails):
+                    ctx.fail(f["clause"], case, f.get("detail"), f.get("key"))
+                if sig is not None:
+                    ctx.outcome(sig[:3])
+
+    return [{"name": "long-series", "body": long_body,
+             "bound_text": "every length 3..%d, 2^k+1 and around every integer constant of the code up to %d" % (40 if quick else 72, lsizes[-1])},
+            {"name": "window-invariants", "body": body}, {"name": "window-invariants-6pt", "body": body6},
             {"name": "pconst+spline", "body": simple_body}, {"name": "constant-series", "body": const_body}]
